@@ -72,7 +72,7 @@ theorem labTok_bounds (src : List Char) (toks : Array SpTok) (hf : ∀ t ∈ tok
     l.start ≤ blen src ∧ blen (upperS l.name) ≤ 12 * blen src := by
   obtain ⟨t, ht, hk, hs⟩ := h
   have f := hf t ht
-  have h1 := f.lab l.name hk
+  have h1 := (f.lab l.name hk).1
   have h2 := blen_upperS l.name
   have := f.lo; have := f.hi
   constructor
@@ -87,13 +87,13 @@ theorem parsed_stmt_facts (src : List Char) (toks : Array SpTok) (stmts : List S
     LabelsBounded stmts ∧ FillLabelsBounded stmts := by
   refine ⟨?_, ?_, ?_, ?_⟩
   · intro s hsm x hx
-    have := (hs s hsm).2
+    have := (hs s hsm).2.1
     rw [hx] at this
     obtain ⟨t, ht, hk⟩ := this
     have := (hf t ht).str x hk
     omega
   · intro s hsm hnl
-    have hk := (hs s hsm).2
+    have hk := (hs s hsm).2.1
     cases hn : s.nucleus with
     | instr i => simp [StmtKind.wordLen]
     | directive d =>
@@ -117,11 +117,11 @@ theorem parsed_stmt_facts (src : List Char) (toks : Array SpTok) (stmts : List S
     have hl : LabTok toks l := by
       rcases hd with hd | hd
       · exact (hs s hsm).1 l hd
-      · have := (hs s hsm).2; rw [hd] at this; exact this
+      · have := (hs s hsm).2.1; rw [hd] at this; exact this
     have := labTok_bounds src toks hf l hl
     omega
   · intro s hsm l hd
-    have hl : LabTok toks l := by have := (hs s hsm).2; rw [hd] at this; exact this
+    have hl : LabTok toks l := by have := (hs s hsm).2.1; rw [hd] at this; exact this
     have := labTok_bounds src toks hf l hl
     omega
 
@@ -205,13 +205,13 @@ theorem parsed_program_lines (src : List Char) (stmts : List Stmt) (h : parseAst
   obtain ⟨toks, hf, hpw, hs, hst⟩ := parseAst_spec src stmts h
   refine ⟨?_, ?_, lines_of_starts src toks hf hpw stmts 0 0 hst (fun _ _ _ _ => Nat.zero_le _)⟩
   · intro s hsm x hx
-    have := (hs s hsm).2
+    have := (hs s hsm).2.1
     rw [hx] at this
     obtain ⟨t, ht, hk⟩ := this
     have := (hf t ht).str x hk
     omega
   · intro s hsm hnl
-    have hk := (hs s hsm).2
+    have hk := (hs s hsm).2.1
     cases hn : s.nucleus with
     | instr i => simp [StmtKind.wordLen]
     | directive d =>
